@@ -214,7 +214,8 @@ struct AllocLedger {
   std::map<void *, Blk> live;
   long calls = 0, fail_at = -1, failed = 0, bad_free = 0;
   bool active = false;
-  void reset() { live.clear(); calls = 0; fail_at = -1; failed = 0; bad_free = 0; }
+  std::string fail_site;      // c-ares frames of the call stack at which the injected failure was delivered
+  void reset() { live.clear(); calls = 0; fail_at = -1; failed = 0; bad_free = 0; fail_site.clear(); }
 };
 extern AllocLedger g_alloc;
 void alloc_install();
